@@ -16,6 +16,16 @@ pub struct Doc {
     pub filler: u8,
     /// false: no extractable fact in this document
     pub fact: bool,
+    /// long enough (>= 2400 characters) to be stored as a parent frame plus chunk frames
+    #[serde(default)]
+    pub long: bool,
+    /// the fact sentence opens the text (first chunk) instead of closing it
+    #[serde(default)]
+    pub fact_first: bool,
+    /// before this put (and after the optional commit) delete an earlier, committed document that
+    /// carries neither a fact nor an embedding request (index into the earlier documents)
+    #[serde(default)]
+    pub delete_earlier: Option<u8>,
 }
 
 #[derive(Debug, Clone, Serialize, Deserialize)]
@@ -31,8 +41,11 @@ fn value_of(i: usize) -> String {
 }
 
 fn text_of(i: usize, d: &Doc) -> String {
-    let filler = crate::gen::gen_text(i as u32 * 7 + 1, d.filler as u32 * 4, crate::gen::TextStyle::Words);
-    if d.fact {
+    let words = if d.long { 520 + d.filler as u32 * 6 } else { d.filler as u32 * 4 };
+    let filler = crate::gen::gen_text(i as u32 * 7 + 1, words, crate::gen::TextStyle::Words);
+    if d.fact && d.fact_first {
+        format!("{} works at {}. Start of note {i}. {filler}.", NAMES[d.name as usize % NAMES.len()], value_of(i))
+    } else if d.fact {
         format!("{filler}. {} works at {}. End of note {i}.", NAMES[d.name as usize % NAMES.len()], value_of(i))
     } else {
         format!("{filler}. Nothing to extract in note {i}.")
@@ -46,12 +59,27 @@ pub fn check(c: &Case) -> CheckResult {
     let mut predicted: Vec<u64> = Vec::new();
     let mut commit_precedes_non_first = false;
     let mut commits = 0;
+    let mut deleted: BTreeSet<usize> = BTreeSet::new();
+    let mut delete_then_put = false;
     for (i, d) in c.docs.iter().enumerate() {
         if d.commit_before {
             if mem.commit().is_err() {
                 return Ok(CaseInfo::trivial().class("aborted_on_commit_error"));
             }
             commits += 1;
+        }
+        if let Some(j) = d.delete_earlier {
+            let cands: Vec<usize> = (0..i).filter(|j| !c.docs[*j].fact && !c.docs[*j].enable_embedding && !deleted.contains(j)).collect();
+            if !cands.is_empty() {
+                let j = cands[j as usize % cands.len()];
+                // only a committed document can be found (and deleted) by uri
+                if let Ok(f) = mem.frame_by_uri(&format!("mv2://notes/n{j}.txt")) {
+                    if mem.delete_frame(f.id).is_ok() {
+                        deleted.insert(j);
+                        delete_then_put = true;
+                    }
+                }
+            }
         }
         let mut o = PutOptions::default();
         o.timestamp = Some(1000 + i as i64);
@@ -153,17 +181,28 @@ pub fn check(c: &Case) -> CheckResult {
     Ok(CaseInfo::nontrivial(commit_precedes_non_first && !with_cards.is_empty())
         .class_if(!got_q.is_empty(), "has_queue_entries")
         .class_if(c.reopen, "reopened")
-        .class_if(commits > 0, "commit_between_puts"))
+        .class_if(commits > 0, "commit_between_puts")
+        .class_if(delete_then_put, "delete_then_put_without_commit")
+        .class_if(c.docs.iter().any(|d| d.long && d.fact), "chunked_document_with_fact"))
 }
 
 fn case() -> impl Strategy<Value = Case> {
-    let doc = (any::<u8>(), prop_oneof![2 => Just(false), 1 => Just(true)], prop_oneof![3 => Just(false), 1 => Just(true)], 0u8..40, prop_oneof![4 => Just(true), 1 => Just(false)])
-        .prop_map(|(name, commit_before, enable_embedding, filler, fact)| Doc { name, commit_before, enable_embedding, filler, fact });
+    let doc = (
+        any::<u8>(),
+        prop_oneof![2 => Just(false), 1 => Just(true)],
+        prop_oneof![3 => Just(false), 1 => Just(true)],
+        0u8..40,
+        prop_oneof![4 => Just(true), 1 => Just(false)],
+        prop::bool::weighted(0.2),
+        any::<bool>(),
+        prop_oneof![3 => Just(None), 1 => any::<u8>().prop_map(Some)],
+    )
+        .prop_map(|(name, commit_before, enable_embedding, filler, fact, long, fact_first, delete_earlier)| Doc { name, commit_before, enable_embedding, filler, fact, long, fact_first, delete_earlier });
     (prop::collection::vec(doc, 1..10), any::<bool>()).prop_map(|(docs, reopen)| Case { docs, reopen })
 }
 
 pub fn build(ctx: &Ctx) -> Vec<Box<dyn Arm>> {
-    ctx.rule("histories of 1..10 puts with default options (instant index, triplet extraction), each text carrying a fact '<Name> works at Uq<i>zco Labs' with a value unique to the document, some puts with enable_embedding (queues enrichment), commits between puts so that log sequence numbers and frame ids diverge, optional reopen; ground truth = the frame found by the document's unique uri; oracle: every card whose value names document i has source_frame_id == that frame and that frame's text contains the value; enrichment records exist exactly for those frames; the enrichment queue holds exactly the frames of the documents put with enable_embedding, each active and Searchable; non-trivial = a commit precedes a non-first document that produced a card");
+    ctx.rule("histories of 1..10 puts with default options (instant index, triplet extraction), each text carrying a fact '<Name> works at Uq<i>zco Labs' with a value unique to the document, some puts with enable_embedding (queues enrichment), a fifth of the texts long enough to be stored as parent + chunk frames (fact in the first or the last chunk), deletes of earlier fact-less committed documents directly before a put, commits between puts so that log sequence numbers and frame ids diverge, optional reopen; ground truth = the frame found by the document's unique uri; oracle: every card whose value names document i has source_frame_id == that frame and that frame's text contains the value; enrichment records exist exactly for those frames; the enrichment queue holds exactly the frames of the documents put with enable_embedding, each active and Searchable; non-trivial = a commit precedes a non-first document that produced a card");
     let t = ctx.tier;
     vec![arm_with("history", t.pick(200, 4000), 8, t.pick(100, 300), case, check)]
 }
